@@ -499,7 +499,9 @@ func c28Msigs(s *transactions.SignedTxn) []*crypto.MultisigSig {
 	return out
 }
 
-func c28CloneSubsigs(m *crypto.MultisigSig) { m.Subsigs = append([]crypto.MultisigSubsig(nil), m.Subsigs...) }
+func c28CloneSubsigs(m *crypto.MultisigSig) {
+	m.Subsigs = append([]crypto.MultisigSubsig(nil), m.Subsigs...)
+}
 
 var c28Muts = []c28Mut{
 	// --- the signed message (every header field, type specific fields) ---
